@@ -76,3 +76,16 @@ Theorem C09_close_always_returns :
   forall s k orc, exists b, In (ORet b) (snd (tstep s (XClose k) orc)).
 Proof. exact close_always_returns. Qed.
 Print Assumptions C09_close_always_returns.
+
+(* a cancel or failure that is cleaning up is not diverted by anything the counterparty or the
+   transport sends meanwhile: the status stays, cleanup is not re-run, and CleanupComplete then
+   takes it to the matching terminal status *)
+Theorem C09_cancel_fail_not_diverted :
+  forall es s,
+    s = Cancelling \/ s = Failing ->
+    forallb (fun e => negb (lifecycle_event e)) es = true ->
+    run_status s es = s /\
+    next_status CleanupComplete (run_status s es) = terminal_of s /\
+    forallb (fun e => negb (starts_handler e s)) es = true.
+Proof. exact cancel_fail_not_diverted. Qed.
+Print Assumptions C09_cancel_fail_not_diverted.
